@@ -155,7 +155,7 @@ impl Prop for C10 {
         false
     }
     fn rule(&self) -> &'static str {
-        "Part A (run indices 0..255, one per first header byte): ALL 256 x 256 two-byte headers, each followed by a complete remainder (extended length, key, payload <= 300 bytes; 16/64-bit length values drawn incl. non-minimal forms) decoded under the read plans {whole, one byte per read, every split point (frames <= 64 bytes) or header/extended-length/key splits + random ones, random chunks, EINTR before reads}, and truncated at EVERY offset (EOF and ConnectionReset). Part B: random frames over FIN x RSV x 6 opcodes x mask off/on (random keys, the all-zero key, all-ones, single-bit and four-equal-bytes keys) x lengths {0,1,124,125,126,127,128,65534,65535,65536,65537, random <= 1 MiB}: Humphrey's encoder vs the reference encoder, decode of both encodings under the plans, Message::to_frame. Distinct non-trivial case = distinct (header bytes, length class, plan kind) for part A and distinct (opcode, flags, length, mask) for part B; evaluations = decoder/encoder calls."
+        "Part A (run indices 0..255, one per first header byte): ALL 256 x 256 two-byte headers, each followed by a complete remainder (extended length, key, payload <= 300 bytes; 16/64-bit length values drawn incl. non-minimal forms; one 64-bit length in three has high bits set (2^63, 2^62, 2^31..2^56) above a small low part, so that what follows is a truncated frame) decoded under the read plans {whole, one byte per read, every split point (frames <= 64 bytes) or header/extended-length/key splits + random ones, random chunks, EINTR before reads}, and truncated at EVERY offset (EOF and ConnectionReset). Part B: random frames over FIN x RSV x 6 opcodes x mask off/on (random keys, the all-zero key, all-ones, single-bit and four-equal-bytes keys) x lengths {0,1,124,125,126,127,128,65534,65535,65536,65537, random <= 1 MiB}: Humphrey's encoder vs the reference encoder, decode of both encodings under the plans, Message::to_frame. Distinct non-trivial case = distinct (header bytes, length class, plan kind) for part A and distinct (opcode, flags, length, mask) for part B; evaluations = decoder/encoder calls."
     }
     fn assumptions(&self) -> Vec<String> {
         vec![
@@ -166,7 +166,7 @@ impl Prop for C10 {
         ]
     }
     fn expected_counters(&self) -> Vec<&'static str> {
-        vec!["c10.headers_enumerated", "c10.reserved_opcode_headers", "c10.len16", "c10.len64", "c10.masked", "c10.roundtrip_frames", "c10.long_frames"]
+        vec!["c10.headers_enumerated", "c10.reserved_opcode_headers", "c10.len16", "c10.len64", "c10.len64_high_bits_set_over_small_low_part", "c10.masked", "c10.roundtrip_frames", "c10.long_frames"]
     }
     fn real_vs_stub(&self) -> (Vec<&'static str>, Vec<&'static str>) {
         (vec!["humphrey_ws Frame::from_stream / from_stream_inner, Opcode::try_from, From<Frame> for Vec<u8>, Message::to_frame"], vec!["the byte source is a scripted reader (read sizes, EINTR, EOF/reset at an offset)"])
@@ -196,7 +196,18 @@ impl Prop for C10 {
                 } else {
                     rr.count("c10.len64", 1);
                     let v = [0usize, 5, 126, 300][rng.usize_below(4)];
-                    bytes.extend((v as u64).to_be_bytes());
+                    // one time in three the 64-bit field claims far more than follows: high bits set
+                    // above a small low part (the supplied remainder is then a truncated frame)
+                    let high: u64 = match rng.below(9) {
+                        0 => 1 << 63,
+                        1 => 1 << 62,
+                        2 => [1u64 << 32, 1 << 31, 1 << 40, 1 << 48, 1 << 56, 0xFFFF_FFFF_0000_0000][rng.usize_below(6)],
+                        _ => 0,
+                    };
+                    if high != 0 {
+                        rr.count("c10.len64_high_bits_set_over_small_low_part", 1);
+                    }
+                    bytes.extend(((v as u64) | high).to_be_bytes());
                     v
                 };
                 if masked {
